@@ -40,7 +40,35 @@ func (g *Gen) colOfLen(name string, kind string, n int) ColData {
 
 var dataKinds = []string{"int", "float", "bool", "string", "strs", "cint", "cfloat", "cbool", "cstring"}
 
+// constZeros: constant columns holding each type's zero value - and a null - are columns of that value
+func (g *Gen) constZeros() {
+	for _, count := range []int{1, 3} {
+		for _, enum := range []bool{false, true} {
+			g.begin("constant zero values")
+			st := Step{Op: "New", Recv: -1, HasOrder: true, ColOrder: bsList([]string{"S", "N", "I", "F", "G", "B"}),
+				Data: []ColData{{Name: toBS("S"), Kind: "cstring", Strs: []*BS{bsp("")}, Count: count}, {Name: toBS("N"), Kind: "cstring", Strs: []*BS{nil}, Count: count},
+					{Name: toBS("I"), Kind: "cint", Ints: []int64{0}, Count: count}, {Name: toBS("F"), Kind: "cfloat", Floats: []string{"0"}, Count: count},
+					{Name: toBS("G"), Kind: "cfloat", Floats: []string{"NaN"}, Count: count}, {Name: toBS("B"), Kind: "cbool", Bools: []bool{false}, Count: count}}}
+			if enum {
+				st.HasEnums, st.Enums = true, []EnumDecl{{Name: toBS("S"), Vals: nil}}
+			}
+			f := g.do(st)
+			g.do(Step{Op: "ToJSON", Recv: f})
+			g.do(Step{Op: "ToCSV", Recv: f})
+			cl := Clause{K: "leaf", Col: toBS("S"), CmpK: "str", Cmp: "isnull"}
+			g.do(Step{Op: "Filter", Recv: f, Clause: &cl})
+			g.do(Step{Op: "Apply", Recv: f, Instrs: []Instr{{Fn: FnRef{K: "const", V: &Val{T: "nil"}}, Dst: toBS("E2")}}})
+			a := g.do(Step{Op: "Apply", Recv: f, Instrs: []Instr{{Fn: FnRef{K: "const", V: &Val{T: "string", S: toBS("")}}, Dst: toBS("E")},
+				{Fn: FnRef{K: "const", V: &Val{T: "int", I: 0}}, Dst: toBS("I2")}, {Fn: FnRef{K: "const", V: &Val{T: "pstring", S: toBS("")}}, Dst: toBS("E3")}}})
+			g.do(Step{Op: "View", Recv: a, Dst: toBS("E")})
+			g.do(Step{Op: "ToJSON", Recv: a})
+			g.end()
+		}
+	}
+}
+
 func genC08(g *Gen) {
+	g.constZeros()
 	// 1. every assignment of lengths {0,1,2} to 1..3 columns, default (alphabetical) order and every
 	//    explicit order; the "first column empty" cases are the ones of D1.
 	lens := []int{0, 1, 2}
